@@ -319,7 +319,17 @@ func fieldAccesses(fns []*ssa.Function, nt *types.Named) []FieldAccess {
 							if id, d := lockOp(ci.Common()); d != 0 && id != "" {
 								continue
 							}
-							out = append(out, FieldAccess{f, fname, true, "address passed to call", r})
+							what := "address passed to call"
+							if sc := ci.Common().StaticCallee(); sc != nil && sc.Signature.Recv() != nil {
+								rt := sc.Signature.Recv().Type()
+								if pt, ok := rt.(*types.Pointer); ok {
+									rt = pt.Elem()
+								}
+								if n, ok := rt.(*types.Named); ok && n.Obj().Pkg() != nil && (n.Obj().Pkg().Path() == "sync" || n.Obj().Pkg().Path() == "sync/atomic") {
+									what = "synchronised access through " + n.Obj().Pkg().Name() + "." + n.Obj().Name()
+								}
+							}
+							out = append(out, FieldAccess{f, fname, true, what, r})
 						}
 					}
 				}
